@@ -21,7 +21,7 @@ PROP = dict(
     extra=_extra,
     theorems=['Fit.C05.C05_pull_refines', 'Fit.C05.C05_pull_in_order', 'Fit.C05.C05_store_of_value', 'Fit.C05.C05_running_total',
               'Fit.C05.C05_rows_in_range', 'Fit.C05.C05_rows_cover', 'Fit.C05.C05_profile_depth', 'Fit.C05.C05_profile_table', 'Fit.C05.C05_seed_exact',
-              'Fit.C05.C05_value_exact', 'Fit.C05.C05_value_within_one', 'Fit.C05.C05_expansion_values',
+              'Fit.C05.C05_value_exact', 'Fit.C05.C05_value_within_one', 'Fit.C05.C05_dest_representable', 'Fit.C05.C05_dest_types', 'Fit.C05.C05_expansion_values',
               'Fit.C05.C05_expansion_fields_partial', 'Fit.C05.C05_expansion_property_partial', 'Fit.C05.C05_KF2_witness',
               'Fit.C05.C05_expansion_off', 'Fit.C05.C05_untouched', 'Fit.C05.C05_on_minus_expanded', 'Fit.C05.C05_F07_witness_fixed'],
     families=[dict(name='bits'), dict(name='accum'), dict(name='expand', spec=True, prop=True, shrink=False)],
